@@ -1,5 +1,5 @@
 import RepeVerif.Model.Fleet
-/-! GENERATED by /verif/extract/fleet.py from /repo (src/fleet.rs, src/async_fleet.rs). -/
+/-! DEFAULT facts (used only when extract/fleet.py does not recognise the source): tables with BrokenPipe, canonical loops, dead client = BrokenPipe (blocking) / NotConnected or BrokenPipe (async). -/
 namespace Repe.Gen.Fleet
 open Repe.Fleet
 def retryableKinds : List IoKind := [.timedOut, .connectionRefused, .connectionReset, .connectionAborted, .notConnected, .unexpectedEof, .brokenPipe, .wouldBlock, .interrupted]
@@ -16,6 +16,8 @@ def filter : FilterForm := .requestedSubsetOfNode
 def asyncFilter : FilterForm := .requestedSubsetOfNode
 def fanOutOverTargets : Bool := true
 def asyncFanOutOverTargets : Bool := true
-def policy : Policy := ⟨retryableKinds, serverRetry, otherRetry⟩
-def asyncPolicy : Policy := ⟨asyncRetryableKinds, asyncServerRetry, asyncOtherRetry⟩
+def deadKinds : List IoKind := [.brokenPipe]
+def asyncDeadKinds : List IoKind := [.notConnected, .brokenPipe]
+def policy : Policy := ⟨retryableKinds, serverRetry, otherRetry, deadKinds.headD .brokenPipe⟩
+def asyncPolicy : Policy := ⟨asyncRetryableKinds, asyncServerRetry, asyncOtherRetry, asyncDeadKinds.headD .brokenPipe⟩
 end Repe.Gen.Fleet
